@@ -12,7 +12,7 @@ def strip_comments(s):
     s = re.sub(r'/\*.*?\*/', '', s, flags=re.S)
     return s
 
-TOK = re.compile(r"\s*(?:(\d+)|('[a-z_]+\b(?!'))|([A-Za-z_][A-Za-z_0-9]*)|(::|->|=>|\.\.|\|\||&&|==|<=|>=|!=|[-+*/%<>=!(){}\[\];,.:&|#?]))")
+TOK = re.compile(r"\s*(?:(\d+)|('[a-z_]+\b(?!'))|([A-Za-z_][A-Za-z_0-9]*)|(\"[^\"]*\")|(::|->|=>|\.\.|\|\||&&|==|<=|>=|!=|[-+*/%<>=!(){}\[\];,.:&|#?]))")
 def lex(src):
     out = []; pos = 0; src = src.strip()
     while pos < len(src):
@@ -22,7 +22,8 @@ def lex(src):
         if m.group(1): out.append(('num', m.group(1)))
         elif m.group(2): out.append(('life', m.group(2)))
         elif m.group(3): out.append(('id', m.group(3)))
-        else: out.append(('p', m.group(4)))
+        elif m.group(4): out.append(('str', m.group(4)))
+        else: out.append(('p', m.group(5)))
     return out
 
 # ------------------------------------------------------------------ locating functions
@@ -943,6 +944,162 @@ def async_table(repo):
     if len(rows) < 19: problems.append(f'only {len(rows)} async methods found')
     return rows, problems
 
+# ------------------------------------------------------------------ the drop path -> gen/LifeFns.v (monad of Model/LifeM.v)
+STAGE = {'prod': 'P', 'work': 'W', 'cons': 'C'}
+class LGen:
+    """translation of the handful of functions on the drop path; anything unexpected raises TErr"""
+    def __init__(s, variant): s.variant = variant; s.n = 0; s.env = {}
+    def fresh(s): s.n += 1; return f'v{s.n}'
+    def strip(s, e):
+        while e[0] in ('paren',): e = e[1]
+        return e
+    def is_self(s, e): return e == ('path', ['self'])
+    def expr(s, e, k):
+        e = s.strip(e); t = e[0]
+        if t == 'path':
+            p = e[1]
+            if p in (['true'], ['false']): return k(p[0])
+            if len(p) == 1 and p[0] in s.env: return k(s.env[p[0]])
+            raise TErr('unbound ' + '::'.join(p))
+        if t == 'unsafe': return f'({s.block(e[1])})' if False else s.block_then(e[1], k)
+        if t == 'not': return s.expr(e[1], lambda a: k(f'(negb {a})'))
+        if t == 'or': return s.expr(e[1], lambda a: s.expr(e[2], lambda b: k(f'({a} || {b})')))
+        if t == 'field' and s.is_self(e[1]) and e[2] == 'needs_drop':
+            v = s.fresh(); return f'{v} <- needs_drop E ;;; ' + k(v)
+        if t == 'deref':
+            # *self.<st>_alive.get()
+            x = s.strip(e[1])
+            if x[0] == 'mcall' and x[2] == 'get' and x[1][0] == 'field' and s.is_self(x[1][1]) and x[1][2].endswith('_alive'):
+                v = s.fresh(); return f'{v} <- get_flag {STAGE[x[1][2][:-6]]} ;;; ' + k(v)
+            raise TErr('deref')
+        if t == 'cmp' and e[1] == '==':
+            # <rmw result> & !flag == 0   /  (x & !flag) == 0 : handled textually by the caller
+            raise TErr('comparison')
+        if t == 'mcall':
+            recv, name, args = s.strip(e[1]), e[2], e[3]
+            if name in ('prod_alive', 'work_alive', 'cons_alive') and s.is_self(recv) and not args:
+                v = s.fresh(); return f'{v} <- get_flag {STAGE[name[:4]]} ;;; ' + k(v)
+            if name in ('set_prod_alive', 'set_work_alive', 'set_cons_alive') and len(args) == 1:
+                # BufRef / iterator level: delegates to the next level down
+                return s.expr(args[0], lambda a: (lambda v: f'{v} <- {s.callee(recv, name)} {a} ;;; ' + k(v))(s.fresh()))
+            if name == 'drop' and s.is_self(recv) and not args: return 'l_bufref_drop E ;;;; ' + k('tt')
+            if name in ('as_ptr', 'as_ref') : return s.expr(recv, k)
+            raise TErr('method ' + name)
+        if t == 'call':
+            f = e[1]
+            if f[0] == 'path' and f[1][-1] == 'fence': return 'fence_ ;;;; ' + k('tt')
+            if f[0] == 'path' and f[1][-1] == 'from_raw': return 'free_ ;;;; ' + k('tt')
+            if f[0] == 'path' and f[1][-1] == 'event': return k('tt')            # verification hook event: no effect
+            raise TErr('call ' + str(f))
+        if t == 'if':
+            def withc(c):
+                a = s.block(e[2]); b = s.block(e[3]) if e[3] is not None else 'lret tt'
+                v = s.fresh(); return f'{v} <- (if {c} then ({a}) else ({b})) ;;; ' + k(v)
+            return s.expr(e[1], withc)
+        if t == 'field' and s.is_self(e[1]) and e[2] in ('inner', 'buffer'): return k('tt')
+        raise TErr('expression ' + t)
+    def callee(s, recv, name):
+        # self.buffer.set_X_alive -> BufRef level;  self.inner.as_ref().set_X_alive -> variant level
+        r = s.strip(recv)
+        while r[0] == 'mcall' and r[2] in ('as_ref', 'as_mut'): r = s.strip(r[1])
+        if r[0] == 'field' and r[2] == 'buffer': return f'l_bufref_{name} V E'
+        if r[0] == 'field' and r[2] == 'inner': return f'(match V with true => lc_{name} | false => ll_{name} end)'
+        raise TErr('receiver of ' + name)
+    def block_then(s, stmts, k):
+        # a block used as an expression whose value continues
+        if not stmts: return k('tt')
+        return s.stmts(stmts, k)
+    def stmts(s, stmts, k):
+        st, rest = stmts[0], stmts[1:]
+        t = st[0]
+        if t == 'let':
+            if st[1][0] == 'pwild' or (st[1][0] == 'pvar' and st[1][1] == '_'): return s.expr(st[2], lambda a: s.stmts(rest, k) if rest else k('tt'))
+            def withv(a):
+                s.env[st[1][1]] = a
+                return s.stmts(rest, k) if rest else k('tt')
+            return s.expr(st[2], withv)
+        if t == 'assign':
+            lhs = s.strip(st[1])
+            if lhs[0] == 'deref':
+                x = s.strip(lhs[1])
+                if x[0] == 'mcall' and x[2] == 'get' and x[1][0] == 'field' and x[1][2].endswith('_alive'):
+                    return s.expr(st[2], lambda a: f'put_flag {STAGE[x[1][2][:-6]]} {a} ;;;; ' + (s.stmts(rest, k) if rest else k('tt')))
+            raise TErr('assignment')
+        if t in ('expr', 'tail'):
+            if rest: return s.expr(st[1], lambda a: s.stmts(rest, k))
+            return s.expr(st[1], k)
+        raise TErr('statement ' + t)
+    def block(s, stmts):
+        if not stmts: return 'lret tt'
+        return s.stmts(stmts, lambda a: f'lret {a}')
+
+def life_fns(repo):
+    out = []; problems = []
+    def fn_of(rel, name, after=None):
+        txt = strip_comments(open(os.path.join(repo, 'src', rel)).read())
+        if after is not None: txt = txt[txt.index(after):]
+        return P(lex(find_fn(txt, name))).fn_item()
+    try:
+        # Local variant: set_X_alive(&self, alive) -> bool
+        for st in ('prod', 'work', 'cons'):
+            it = fn_of('ring_buffer/variants/local_rb.rs', f'set_{st}_alive', 'IterManager for')
+            g = LGen('local'); g.env[it[2][0][0]] = 'alive'
+            body = it[4]
+            # a private helper `fn h(&self) -> bool { !(a || b || c) }` is inlined
+            out.append(f'Definition ll_set_{st}_alive (alive : bool) : LM bool :=\n  {g.block(inline_helpers(repo, "ring_buffer/variants/local_rb.rs", body))}.')
+        # Concurrent variant: set_X_alive -> set_alive(MASK, alive): one RMW, the answer computed from the value it read
+        ctxt = strip_comments(open(os.path.join(repo, 'src', 'ring_buffer/variants/concurrent_rb.rs')).read())
+        sa = re.sub(r'\s+', '', find_fn(ctxt, 'set_alive'))
+        one_rmw = sa.count('fetch_and(') == 1 and sa.count('fetch_or(') == 1 and '.load(' not in sa
+        decided = re.search(r'\(?(?:self\.alive\.fetch_and\(!flag,[\w:]+\)|(\w+))&!flag\)?==0', sa) is not None
+        sets_false = re.search(r'fetch_or\(flag,[\w:]+\);false', sa) is not None
+        if not (one_rmw and decided and sets_false): raise TErr('concurrent_rb.rs::set_alive: not `if alive { fetch_or; false } else { fetch_and(!flag) & !flag == 0 }`')
+        for st in ('prod', 'work', 'cons'):
+            b = re.sub(r'\s+', '', find_fn(ctxt[ctxt.index('IterManager for'):], f'set_{st}_alive'))
+            if not re.search(r'\{self\.set_alive\(' + st.upper() + r'_ALIVE,alive\)\}$', b): raise TErr(f'concurrent_rb.rs::set_{st}_alive: not set_alive({st.upper()}_ALIVE, alive)')
+            out.append(f'Definition lc_set_{st}_alive (alive : bool) : LM bool :=\n  old <- rmw_flag {STAGE[st]} alive ;;; lret (if alive then false else none_set (tset {STAGE[st]} false old)).')
+        # BufRef::drop and BufRef::set_X_alive
+        it = fn_of('ring_buffer/wrappers/buf_ref.rs', 'drop')
+        out.append('Definition l_bufref_drop (E : lenv) : LM unit :=\n  ' + LGen('bufref').block(it[4]) + '.')
+        for st in ('prod', 'work', 'cons'):
+            it = fn_of('ring_buffer/wrappers/buf_ref.rs', f'set_{st}_alive')
+            g = LGen('bufref'); g.env[it[2][0][0]] = 'alive'
+            out.append(f'Definition l_bufref_set_{st}_alive (V : bool) (E : lenv) (alive : bool) : LM unit :=\n  ' + g.block(inline_helpers(repo, "ring_buffer/wrappers/buf_ref.rs", it[4])) + '.')
+        # Drop for the three iterators
+        for st, f in (('prod', 'prod_iter.rs'), ('work', 'work_iter.rs'), ('cons', 'cons_iter.rs')):
+            txt = strip_comments(open(os.path.join(repo, 'src', 'iterators/sync_iterators', f)).read())
+            i = txt.index('Drop for')
+            it = P(lex(find_fn(txt[i:], 'drop'))).fn_item()
+            g = LGen('iter')
+            out.append(f'Definition l_drop_{st} (V : bool) (E : lenv) : LM unit :=\n  ' + g.block(it[4]) + '.')
+    except (TErr, ValueError, IndexError, KeyError, OSError) as ex:
+        problems.append(f'drop path outside the translatable subset: {ex}')
+    return out, problems
+
+def inline_helpers(repo, rel, stmts):
+    """`self.h()` / `self.h(x)` where `fn h` of the same file has a one-expression or one-`if` body: replaced by that body (one level)"""
+    txt = strip_comments(open(os.path.join(repo, 'src', rel)).read())
+    def sub(e, mapping=None):
+        if isinstance(e, tuple):
+            if e[0] == 'mcall' and e[1] == ('path', ['self']) and e[2] not in ('prod_alive', 'work_alive', 'cons_alive', 'drop', 'set_prod_alive', 'set_work_alive', 'set_cons_alive'):
+                try:
+                    it = P(lex(find_fn(txt, e[2]))).fn_item()
+                    if len(it[4]) == 1 and it[4][0][0] in ('tail', 'expr'):
+                        body = it[4][0][1]
+                        params = [pn for pn, _ in it[2]]
+                        def rep(x):
+                            if isinstance(x, tuple):
+                                if x[0] == 'path' and len(x[1]) == 1 and x[1][0] in params: return e[3][params.index(x[1][0])]
+                                return tuple(rep(y) for y in x)
+                            if isinstance(x, list): return [rep(y) for y in x]
+                            return x
+                        return rep(body)
+                except TErr: pass
+            return tuple(sub(x) for x in e)
+        if isinstance(e, list): return [sub(x) for x in e]
+        return e
+    return sub(stmts)
+
 def main(repo, outdir):
     defs, problems = translate(repo)
     lines = ['(* GENERATED by tools/data_translate.py from /repo/src on every run - do not edit *)',
@@ -960,6 +1117,12 @@ def main(repo, outdir):
     for p in problems: lines.append(f'(* PROBLEM: {p} *)')
     os.makedirs(outdir, exist_ok=True)
     open(os.path.join(outdir, 'DataFns.v'), 'w').write('\n'.join(lines) + '\n')
+    lf, lfp = life_fns(repo)
+    ll = ['(* GENERATED by tools/data_translate.py from /repo/src on every run - do not edit *)',
+          'From Coq Require Import List Bool.', 'Import ListNotations.', 'Require Import MRB.Model.Types MRB.Model.LifeM.', 'Open Scope lm_scope.', ''] + lf + [
+          f'Definition life_clean : bool := {"true" if not lfp else "false"}.'] + [f'(* PROBLEM: {x} *)' for x in lfp]
+    open(os.path.join(outdir, 'LifeFns.v'), 'w').write('\n'.join(ll) + '\n')
+    problems = problems + lfp
     sh, shp = poll_shape(repo)
     at, atp = async_table(repo)
     b = lambda x: 'true' if x else 'false'
